@@ -781,7 +781,10 @@ public:
       return 0;
 
     if (size == 1)
-      return v2[0] * std::exp(v1[0]);
+    {
+      T h1 = std::exp(v1[0] / 2); // exp(v1[0]) alone may overflow although the product is representable
+      return h1 * v2[0] * h1;
+    }
 
     if (std::isinf(M))
       throw BadNumberException("VectorTools::sumExp", M);
@@ -792,7 +795,9 @@ public:
       if (v2[i] != 0)
         x += v2[i] * std::exp(v1[i] - M);
     }
-    return x * std::exp(M);
+    // exp(M) alone may overflow (or underflow) although x * exp(M) is representable (weights below one)
+    T h = std::exp(M / 2);
+    return h * x * h;
   }
 
   /**
